@@ -210,6 +210,7 @@ type Query struct {
 	Text  string // SMT-LIB without prelude/logic header
 	Size  int
 	Parts []*Query // for a conjunctive goal: one query per conjunct (run only if the whole fails)
+	Raw   bool     // self-contained query (regex obligations): no prelude; String constants x!0, y!0 are reported
 }
 
 // queries returns one query per assert command of the passive program.
